@@ -24,6 +24,8 @@ func c20Pool() []replLine {
 		{"1 +;", true, "syntax"}, {Print("1")[:len(Print("1"))-1], true, "syntax"}, {")", true, "syntax"}, {"{", true, "syntax"}, {"1 = 2;", true, "syntax"},
 		{"1 / 0;", true, "runtime"}, {"নেই;", true, "runtime"}, {"nil.k;", true, "runtime"}, {BI("len", "5") + ";", true, "runtime"}, {Break(), true, "runtime"}, {Ret("1"), true, "runtime"},
 		{Print("1") + " 1 / 0; " + Print("2"), true, "runtime"},
+		// equality is total: a container against a scalar, a built-in, nil
+		{"[1, 2] == 1;", true, "echo"}, {"[] != 0;", true, "echo"}, {"({k: 1}) == " + True() + ";", true, "echo"}, {"[1] == " + B["len"] + ";", true, "echo"}, {"8 >> -1;", true, "runtime"},
 		// a line with a syntax error runs nothing, whatever it would have done
 		{Print("nope")[:len(Print("nope"))-1], true, "syntax"}, {"nope + 1", true, "syntax"}, {"{ " + Print("1 / 0"), true, "syntax"},
 		// only the line's own bare expressions are echoed, not expression statements inside functions it calls
